@@ -11,7 +11,7 @@ structure DState where
   c : SrvCfg := { cfg := { steps := [] } }
   s : Srv := {}
 
-def sStatus : Status → String
+def sStatus : HStatus → String
   | .running => "running" | .completed => "completed" | .failed => "failed" | .cancelled => "cancelled"
 
 def sErr : Option SrvErr → String
